@@ -220,6 +220,22 @@ def updateReqs (ver : Bytes) (t : Target) (loc : Bytes) (ids : List Bytes)
               else [])
       else []
 
+/-- `syncer.updateCheckpoint`: the order in which a START passes the two reported ids to
+    `UpdateCheckpoint` — the id the checkpoint hash resolves goes first
+    (`if len(ids) > 1 && cpRunId == ids[1] && ids[1] != ids[0] { ordered = [ids[1], ids[0]] }`). -/
+def startIds (h : List (Bytes × Bytes)) : List Bytes → List Bytes
+  | [a, b] =>
+    match getHash h [a, b] with
+    | some (_, r) => if r = b ∧ b ≠ a then [b, a] else [a, b]
+    | none => [a, b]
+  | ids => ids
+
+/-- the bookkeeping part of a start on target `t`: `UpdateCheckpoint(local, ordered ids)` run to
+    completion (the position is then read with `GetCheckpoint` under the LOCAL key) -/
+def nextStart (ver : Bytes) (t : Target) (loc : Bytes) (ids : List Bytes) (o1 o2 : List Nat)
+    (now : Int) : Target :=
+  applyAll t (updateReqs ver t loc (startIds t.hash ids) o1 o2 now)
+
 /-! ### DelStaleCheckpoint / gcStaleCheckpoint -/
 
 structure StaleScan where
